@@ -46,11 +46,10 @@ type c19B struct { // boolean expression
 }
 
 type c19S struct { // string value
-	tok     string // "" = the empty string literal; otherwise a raw token text
-	empty   bool
-	ite     *c19B
-	a, b    *c19S
-	isTokOf bool
+	tok   string // a raw token text
+	empty bool   // the empty string literal
+	ite   *c19B
+	a, b  *c19S
 }
 
 type c19It struct {
@@ -217,7 +216,6 @@ type c19Interp struct {
 	funcs   map[string]*ast.FuncDecl
 	events  []c19Event
 	path    []*c19B
-	optsOf  string // the variable whose .Options is snapshotted at DownloadTo ("" = any)
 	depth   int
 	retMode bool // record successful returns as events (ResolveChartVersion)
 }
@@ -879,14 +877,10 @@ func c19Run(repo string, t c19Target) (*c19Interp, error) {
 	if target == nil {
 		return nil, fmt.Errorf("%s: func (%s) %s not found", t.file, t.recv, t.fn)
 	}
-	st := c19NewSt()
-	// the loop body of downloadAll is entered by the generic rule (one pass)
-	in.blockLoops(st, target.Body.List)
+	// loop bodies (downloadAll) are entered once, on a copy of the state; their events are kept
+	in.block(c19NewSt(), target.Body.List)
 	return in, nil
 }
-
-// like block, but events inside loop bodies are kept (the loop body runs on a copy of the state)
-func (in *c19Interp) blockLoops(st *c19St, stmts []ast.Stmt) { in.block(st, stmts) }
 
 // ---------------------------------------------------------------- printing
 
